@@ -223,3 +223,37 @@ pub fn eq_hash(c1: usize, r1: usize, c2: usize, r2: usize) {
     assert!((a != b) == !eq, "ORACLE: != is not the negation of ==");
     end_reached!();
 }
+
+/// Zero-sized elements (`()`): every cell is equal, so a == b exactly when the dimensions are equal;
+/// equal arrays hash identically, unequal dimensions feed different streams; clone and the conversions
+/// keep the shape. Shapes are symbolic (up to 4x4): there is nothing else to vary.
+pub fn unit_eq_hash() {
+    let (c1, r1, c2, r2) = (nd::upto(4), nd::upto(4), nd::upto(4), nd::upto(4));
+    nd::assume((c1 == 0) == (r1 == 0) && (c2 == 0) == (r2 == 0));
+    let a: TooDee<()> = TooDee::new(c1, r1);
+    let b: TooDee<()> = TooDee::init(c2, r2, ());
+    assert!(a.size() == (c1, r1) && a.data().len() == c1 * r1, "ORACLE: new() shape with zero-sized elements");
+    assert!(b.size() == (c2, r2) && b.data().len() == c2 * r2, "ORACLE: init() shape with zero-sized elements");
+    let eq = a == b;
+    assert!(eq == ((c1, r1) == (c2, r2)), "ORACLE: equality of zero-sized-element arrays is not equality of dimensions");
+    assert!((a != b) == !eq, "ORACLE: != is not the negation of ==");
+    let mut ha = Rec { buf: [0; 64], n: 0 };
+    let mut hb = Rec { buf: [0; 64], n: 0 };
+    a.hash(&mut ha);
+    b.hash(&mut hb);
+    if eq {
+        assert!(ha.n == hb.n, "ORACLE: equal arrays hash differently (stream length)");
+        let k = nd::below(64);
+        if k < ha.n {
+            assert!(ha.buf[k] == hb.buf[k], "ORACLE: equal arrays hash differently");
+        }
+    }
+    let cl = a.clone();
+    assert!(cl == a && cl.size() == (c1, r1), "ORACLE: clone of a zero-sized-element array differs");
+    let v: Vec<()> = a.into();
+    assert!(v.len() == c1 * r1, "ORACLE: into Vec length (zero-sized elements)");
+    let view = b.view((0, 0), (c2, r2));
+    let owned = TooDee::from(view);
+    assert!(owned == b, "ORACLE: From<TooDeeView> differs from the viewed array (zero-sized elements)");
+    end_reached!();
+}
